@@ -318,9 +318,10 @@ PROPS['C17'] = dict(
                 "expressions (their source text is regenerated from /repo and must equal the modelled expressions), the JSON {t,v} envelope "
                 "with string escaping, hex digests, SeqNr check. The model is compared with the Go functions on every run (texts byte for "
                 "byte; JSON documents at the level of the structs around encoding/json) and the round-trip predicate is evaluated on the Go results.",
-    assumptions=["encoding/json is taken at struct level (field values in = field values out) except for the {t,v} envelope inside timestamped "
-                 "values, which is modelled byte for byte for the canonical encoder output; inputs outside that canonical JSON shape or using "
-                 "scientific notation are not compared (counted as outside-modelled-syntax)",
+    assumptions=["JSONReportCodec.Encode is modelled byte for byte (json_report_bytes = json.Marshal's output, compared on every run; "
+                 "C17_json_report_roundtrip_bytes reads those bytes back); encoding/json's DEcoder is modelled only on that canonical shape: its "
+                 "treatment of other JSON (whitespace, field order, duplicates, scientific notation) is library behaviour, taken at struct "
+                 "level in TDecode cases or counted as outside-modelled-syntax; Pack/Unpack are at struct level",
                  "reports carry SeqNr >= 1 (Decode rejects 0)", "report passed to Pack is the compact JSON produced by Encode"],
     level_text="Coq theorems (unbounded size, depth and digits) over byte-level models of the stream value text forms and struct-level models of "
                "the JSON report codec and Pack/Unpack; regular expressions regenerated from /repo; tied to the Go code by differential testing.",
